@@ -28,6 +28,8 @@ enum {
 			   belongs to another layout or another place */
     NKINDS
 };
+static int mut_level2;		/* set while pairs of deviations are built */
+
 static const char *const kind_names[NKINDS] = {
     "truncate", "token-delete", "token-duplicate", "token-swap-next",
     "number-replace", "keyword-replace", "line-delete", "line-duplicate",
@@ -381,6 +383,11 @@ static void dev_apply(const doc_t *d, int kind, long pos, emit_fn emit,
 
     case K_NUM:
 	for (int v = 0; v < NNUMREPL; ++v) {
+	    /* pairs leave the large counts out: two of them together ask
+	       for terabytes (honest allocation, not what is explored) and
+	       every load of 65536 frequencies costs a second */
+	    if (mut_level2 && v >= NUMREPL_BIG_FIRST && v <= NUMREPL_BIG_LAST)
+		continue;
 	    o->n = 0;
 	    ob_put(o, s, 0, d->ncs[pos]);
 	    ob_str(o, num_repl[v]);
